@@ -1,9 +1,9 @@
 (* Attr.v — the two attribute passes of attr.rs (AttrStore::new): compute_no_format and
    compute_multiline. `annotate t` returns t with every node's flags filled in. *)
-From TV Require Export Ast.
+From TV Require Export Ast Ext.
 
-(* "@typstyle off" *)
-Definition typstyle_off : str := [64; 116; 121; 112; 115; 116; 121; 108; 101; 32; 111; 102; 102].
+(* "@typstyle off": generated from attr.rs *)
+Definition typstyle_off : str := TYPSTYLE_OFF.
 
 Definition set_disabled (t : tree) : tree :=
   match t with
@@ -60,12 +60,12 @@ Fixpoint multiline (t : tree) : tree * bool :=
         | c :: rest =>
             let (c', mlc) := multiline c in
             if is_kind KSpace c then
-              let lb := has_linebreak (text_of c) in
+              let lb := has_lb (text_of c) in
               let '(r, ml, fl) := go rest true in
               (c' :: r, lb || mlc || ml, (lb && negb seen_space) || fl)
             else if is_kind KBlockComment c then
               let '(r, ml, fl) := go rest seen_space in
-              (c' :: r, has_linebreak (text_of c) || mlc || ml, fl)
+              (c' :: r, has_lb (text_of c) || mlc || ml, fl)
             else
               let '(r, ml, fl) := go rest seen_space in
               (c' :: r, mlc || ml, fl)
